@@ -210,6 +210,116 @@ def defined_probe(names):
     return "".join("{{ 'D' if %s is defined else 'U' }}" % n for n in names)
 
 
+# ---- every kind of template markup, over a value that differs between instances -----------------
+# form -> (cell text from (reference X, constant C), value from (x, C), markup kind)
+MK_FORMS = {
+    "expr": (lambda X, C: "T{{%s}}." % X, lambda x, C: f"T{x}.", "expr"),
+    "expr-spaced": (lambda X, C: "T{{ %s }}." % X, lambda x, C: f"T{x}.", "expr"),
+    "filter-upper": (lambda X, C: "T{{%s|upper}}." % X, lambda x, C: f"T{x.upper()}.", "expr"),
+    "filter-length": (lambda X, C: "T{{%s|length}}." % X, lambda x, C: f"T{len(x)}.", "expr"),
+    "filter-default": (lambda X, C: "T{{%s|default('d')}}." % X, lambda x, C: f"T{x}.", "expr"),
+    "filter-replace": (lambda X, C: "T{{%s|replace('a', 'A')}}." % X, lambda x, C: "T" + x.replace("a", "A") + ".", "expr"),
+    "concat": (lambda X, C: "{{ 'T' ~ %s ~ '.' }}" % X, lambda x, C: f"T{x}.", "expr"),
+    "ternary": (lambda X, C: "{{ 'eq' if %s == '%s' else 'ne' }}." % (X, C), lambda x, C: ("eq" if x == C else "ne") + ".", "expr"),
+    "stmt-if": (lambda X, C: "{%% if %s == '%s' %%}yes-%s{%% else %%}no{%% endif %%}." % (X, C, C), lambda x, C: (f"yes-{C}" if x == C else "no") + ".", "stmt"),
+    "stmt-if-noelse": (lambda X, C: "S{%% if %s == '%s' %%}+{%% endif %%}." % (X, C), lambda x, C: "S" + ("+" if x == C else "") + ".", "stmt"),
+    "stmt-if-ws": (lambda X, C: "{%%- if %s == '%s' -%%} a {%%- else -%%} b {%%- endif -%%}." % (X, C), lambda x, C: ("a" if x == C else "b") + ".", "stmt"),
+    "stmt-if-ne": (lambda X, C: "{%% if %s != '%s' %%}other{%% else %%}same{%% endif %%}." % (X, C), lambda x, C: ("other" if x != C else "same") + ".", "stmt"),
+    "stmt-set": (lambda X, C: "{%% set z = %s %%}{%% if z == '%s' %%}eq{%% else %%}ne{%% endif %%}." % (X, C), lambda x, C: ("eq" if x == C else "ne") + ".", "stmt"),
+    "stmt-for": (lambda X, C: "F{%% for q in %s %%}*{%% endfor %%}." % X, lambda x, C: "F" + "*" * len(x) + ".", "stmt"),
+    "stmt-for-loopvar": (lambda X, C: "F{%% for q in %s %%}{%% if loop.first %%}<{%% endif %%}-{%% endfor %%}." % X,
+                         lambda x, C: "F" + ("<" if x else "") + "-" * len(x) + ".", "stmt"),
+    "stmt-in": (lambda X, C: "{%% if '%s' in %s %%}in{%% else %%}out{%% endif %%}." % (C[:1], X), lambda x, C: ("in" if C[:1] in x else "out") + ".", "stmt"),
+    "stmt-elif": (lambda X, C: "{%% if %s == '%s' %%}one{%% elif %s == 'yes' %%}two{%% else %%}three{%% endif %%}." % (X, C, X),
+                  lambda x, C: ("one" if x == C else "two" if x == "yes" else "three") + ".", "stmt"),
+    "mixed": (lambda X, C: "{%% if %s == '%s' %%}{{%s}}!{%% else %%}-{%% endif %%}." % (X, C, X), lambda x, C: (f"{x}!" if x == C else "-") + ".", "expr"),
+    "native": (lambda X, C: "{@ %s @}" % X, lambda x, C: x, "native"),
+    "native-cond": (lambda X, C: "{@ 'p.' if %s == '%s' else 'q.' @}" % (X, C), lambda x, C: "p." if x == C else "q.", "native"),
+    "native-filter": (lambda X, C: "{@ %s|upper @}" % X, lambda x, C: x.upper(), "native"),
+    "comment": (lambda X, C: "{# %s #}fixed." % X, lambda x, C: "fixed.", "static"),
+    "raw": (lambda X, C: "{%% raw %%}{{%s}}{%% endraw %%}." % X, lambda x, C: "{{%s}}." % "@X@", "static"),
+    "static": (lambda X, C: "fixed text.", lambda x, C: "fixed text.", "static"),
+}
+# truth-valued cells for include_if, list-valued cells for begin_for, per markup kind
+MK_TRUTH = {
+    "stmt": lambda X, C: "{%% if %s == '%s' %%}true{%% else %%}false{%% endif %%}" % (X, C),
+    "expr": lambda X, C: "{{ %s == '%s' }}" % (X, C),
+    "native": lambda X, C: "{@ %s == '%s' @}" % (X, C),
+}
+MK_LIST = {
+    "stmt": lambda X, C: "{%% if %s == '%s' %%}p;q{%% else %%}r;{%% endif %%}" % (X, C),
+    "expr": lambda X, C: "{{ 'p;q' if %s == '%s' else 'r;' }}" % (X, C),
+    "native": lambda X, C: "{@ ['p', 'q'] if %s == '%s' else ['r'] @}" % (X, C),
+}
+MK_PICK = {       # a value out of two, per markup kind (block arguments / data row ids)
+    "stmt": lambda X, C, a, b: "{%% if %s == '%s' %%}%s{%% else %%}%s{%% endif %%}" % (X, C, a, b),
+    "expr": lambda X, C, a, b: "{{ '%s' if %s == '%s' else '%s' }}" % (a, X, C, b),
+    "native": lambda X, C, a, b: "{@ '%s' if %s == '%s' else '%s' @}" % (a, X, C, b),
+}
+MK_COLUMNS = ["message_text", "message_text", "message_text", "choices", "condition", "include_if", "loop-list", "group"]
+
+
+def mk_value(p, x):
+    v = MK_FORMS[p["form"]][1](x, p["C"])
+    return v.replace("@X@", p["src"]) if p["form"] == "raw" else v
+
+
+def mk_rows(p, rid):
+    """rows of one markup feature (p: form, kind, src, C, col)"""
+    X, C, col = p["src"], p["C"], p["col"]
+    if col == "message_text":
+        return [tpl_row(type="send_message", message_text=MK_FORMS[p["form"]][0](X, C))]
+    if col == "choices":
+        return [tpl_row(type="send_message", message_text="Q.", choices=MK_FORMS[p["form"]][0](X, C) if MK_FORMS[p["form"]][2] != "native" else "{{%s}}" % X)]
+    if col == "group":
+        return [tpl_row(type="add_to_group", message_text=MK_FORMS[p["form"]][0](X, C))]
+    if col == "condition":
+        r = rid()
+        return [tpl_row(row_id=r, type="split_by_value", message_text="@fields.y"),
+                tpl_row(type="send_message", **{"from": r}, condition=MK_FORMS[p["form"]][0](X, C) if MK_FORMS[p["form"]][2] != "native" else "{{%s}}" % X,
+                        message_text="MC:yes."),
+                tpl_row(type="send_message", **{"from": r}, message_text="MC:no.")]
+    if col == "include_if":
+        return [tpl_row(type="send_message", include_if=MK_TRUTH[p["kind"]](X, C), message_text="MI.")]
+    if col == "loop-list":
+        return [tpl_row(type="begin_for", loop_variable="m", message_text=MK_LIST[p["kind"]](X, C)),
+                tpl_row(type="send_message", message_text="ML:{{m}}."),
+                tpl_row(type="end_for")]
+    raise ValueError(col)
+
+
+def mk_texts(p, env):
+    """message texts the feature contributes in an instance whose sources have the values env"""
+    x, C, col = env[p["src"]], p["C"], p["col"]
+    if col == "message_text":
+        return [mk_value(p, x)]
+    if col == "choices":
+        return ["Q."]
+    if col == "group":
+        return []
+    if col == "condition":
+        return ["MC:yes.", "MC:no."]
+    if col == "include_if":
+        return ["MI."] if x == C else []
+    if col == "loop-list":
+        return ["ML:p.", "ML:q."] if x == C else ["ML:r."]
+    raise ValueError(col)
+
+
+def gen_mk(rng, sources, consts):
+    """sources: reference texts usable here; consts: source -> values it takes in this workbook"""
+    src = rng.choice(sources)
+    col = rng.choice(MK_COLUMNS)
+    k = rng.random()
+    # 45% of the cells carry NO {{ }} / {@ @}: statements only; 12% are literal controls (comment, raw, plain text)
+    want = ("stmt",) if k < 0.45 else ("expr", "native") if k < 0.88 else ("static",)
+    form = rng.choice([f for f, (_, _, kind) in MK_FORMS.items() if kind in want])
+    kind = MK_FORMS[form][2]
+    if col in ("include_if", "loop-list") and kind == "static":
+        kind = "stmt"
+    return dict(form=form, kind=kind, src=src, col=col, C=rng.choice(consts[src]))
+
+
 def gen_case(rng, malformed=False):
     """An abstract workbook.  Everything random is drawn here; rendering is deterministic."""
     n_rows = rng.choice([1, 2, 2, 3, 3, 4, 5])
@@ -224,6 +334,9 @@ def gen_case(rng, malformed=False):
                          key=rng.choice(lk_ids)))
     bdata = [dict(ID="b1", bval="BV1"), dict(ID="b2", bval="BV2")]
     lookup = [dict(ID=k, col="C" + k + str(rng.randrange(10))) for k in lk_ids]
+
+    consts = {"val": sorted({d["val"] for d in data}), "flag": ["yes", "no"], "key": list(lk_ids), "ID": list(ids), "it": list(lk_ids),
+              "b1": ["A1", "A2", "yes", "B1", "no", "bd"] + sorted({d["val"] for d in data}), "bval": ["BV1", "BV2"], "d1": ["A1", "B1", "yes", "no", "bd"]}
 
     # ---- templates -------------------------------------------------------------
     def gen_defs(prefix):
@@ -255,10 +368,14 @@ def gen_case(rng, malformed=False):
     def gen_features(defs, has_data, allow_block=True):
         feats = []
         pool = ["args", "probe", "group", "router", "litloop"]
+        plain_args = [n for n, t, _ in defs if t != "sheet"]
+        sources = (["val", "flag", "key", "ID"] if has_data else []) + plain_args
+        if sources:
+            pool += ["mk"] * 5
         if has_data:
-            pool += ["field", "field", "loop", "loop", "cond", "cond", "mut", "read", "startflow"]
+            pool += ["field", "field", "loop", "loop", "cond", "cond", "mut", "read", "startflow", "mkloop", "mkloop"]
             if allow_block:
-                pool += ["block", "block", "blocknodata"]
+                pool += ["block", "block", "blocknodata", "mkblock", "mkblock", "mkblock"]
         if any(t == "sheet" for _, t, _ in defs):
             pool += ["sheet", "sheet", "readlk"]
         for _ in range(rng.choice([2, 3, 4, 5, 6])):
@@ -274,6 +391,15 @@ def gen_case(rng, malformed=False):
                 p = dict(which=rng.choice([n for n, t, _ in defs if t == "sheet"]), k=rng.choice(lk_ids), rid=rng.choice(ids))
             if f == "startflow":
                 p = dict(target=rng.randrange(1000))
+            if f == "mk":
+                p = gen_mk(rng, sources, consts)
+            if f == "mkloop":
+                p = gen_mk(rng, sources + ["it", "it"], consts)
+                p["col"] = rng.choice(["message_text", "message_text", "include_if", "choices"])
+            if f == "mkblock":
+                # how the inserted block gets its argument and its data row: each by some kind of markup over a source
+                p = dict(arg=gen_mk(rng, sources, consts), row=gen_mk(rng, sources, consts) if rng.random() < 0.6 else None,
+                         a=rng.choice(["A1", "A2", "yes"]), b=rng.choice(["B1", "no"]), direct=rng.random() < 0.4)
             feats.append((f, p))
         # an enter-flow node has no default exit: at most one, as the last row
         sf = [x for x in feats if x[0] == "startflow"]
@@ -290,7 +416,6 @@ def gen_case(rng, malformed=False):
     for t, (name, tp) in enumerate(templates.items()):
         has_data = True if t == 0 else rng.random() < 0.7
         tp["has_data"] = has_data
-        tp["feats"] = gen_features(tp["defs"], has_data)
         n_create = 1 if t == 0 else rng.choice([1, 1, 2])
         for k in range(n_create):
             if has_data:
@@ -301,6 +426,11 @@ def gen_case(rng, malformed=False):
                                 row_id=rng.choice(ids) if mode == "single" else "",
                                 args=gen_args(tp["defs"]),
                                 new_name=rng.choice(["", f"ren{len(creates)}", f"N {len(creates)}"])))
+        # the values each plain argument takes in this workbook (given or default): constants the markup compares with
+        for j, (n, ty, d) in enumerate(tp["defs"]):
+            if ty != "sheet":
+                consts[n] = sorted({(c["args"][j] if j < len(c["args"]) and c["args"][j] != "" else d) for c in creates if c["template"] == name})
+        tp["feats"] = gen_features(tp["defs"], has_data)
     # distinct flow names per create row: blank new_name only once per template
     seen = set()
     for c in creates:
@@ -310,8 +440,14 @@ def gen_case(rng, malformed=False):
             base = c["new_name"]
         seen.add(base)
     rng.shuffle(creates)
+    blk2 = dict(feats=[gen_mk(rng, ["b1", "b1", "bval"], consts) for _ in range(rng.choice([1, 2, 3]))],
+                nested=rng.choice([None, None, "expr", "stmt", "native"]), nested_C=rng.choice(consts["b1"]),
+                blk3=[gen_mk(rng, ["d1"], consts) for _ in range(rng.choice([1, 2]))])
+    for q in blk2["feats"] + blk2["blk3"]:
+        if q["col"] == "loop-list" and rng.random() < 0.5:
+            q["col"] = "message_text"
     case = dict(ids=ids, data=data, bdata=bdata, lookup=lookup, templates=templates, creates=creates,
-                blk_defs=[("b1", "", "bd")], malformed=None,
+                blk_defs=[("b1", "", "bd")], malformed=None, blk2=blk2,
                 index_order=rng.choice(["defs-first", "creates-first"]))
     if malformed:
         case["malformed"] = rng.choice(["missing-required", "clash", "unknown-sheet", "too-many", "empty-loop",
@@ -414,9 +550,102 @@ def render_template(case, name):
             rows.append(tpl_row(type="start_new_flow", message_text=p["target_name"]))
         elif f == "badattr":
             rows.append(tpl_row(type="send_message", message_text="{{val.nosuch.deeper}}"))
+        elif f == "mk":
+            rows += mk_rows(p, rid)
+        elif f == "mkloop":
+            rows.append(tpl_row(type="begin_for", loop_variable="it", message_text="{@items@}"))
+            rows += mk_rows(p, rid)
+            rows.append(tpl_row(type="end_for"))
+        elif f == "mkblock":
+            rows.append(mkblock_row(p))
     if len(rows) == 1:
         rows.append(tpl_row(type="send_message", message_text="empty."))
     return rows
+
+
+def mkblock_row(p):
+    """insert_as_block of the generated block blk2: its argument and (optionally) its data row come out of markup cells"""
+    a = p["arg"]
+    if p["direct"]:
+        arg = MK_FORMS["native" if a["kind"] == "native" else "expr"][0](a["src"], a["C"]).replace("T{{", "{{").replace("}}.", "}}")
+    else:
+        arg = MK_PICK[a["kind"] if a["kind"] in MK_PICK else "stmt"](a["src"], a["C"], p["a"], p["b"])
+    r = p["row"]
+    if r is None:
+        return tpl_row(type="insert_as_block", message_text="blk2", template_arguments=arg)
+    did = MK_PICK[r["kind"] if r["kind"] in MK_PICK else "stmt"](r["src"], r["C"], "b1", "b2")
+    return tpl_row(type="insert_as_block", message_text="blk2", data_sheet="bdata", data_row_id=did, template_arguments=arg)
+
+
+def mkblock_texts(case, p, env):
+    a = p["arg"]
+    x = env[a["src"]]
+    b1 = x if p["direct"] else (p["a"] if x == a["C"] else p["b"])
+    benv = {"b1": b1}
+    r = p["row"]
+    if r is not None:
+        bid = "b1" if env[r["src"]] == r["C"] else "b2"
+        benv["bval"] = next(b["bval"] for b in case["bdata"] if b["ID"] == bid)
+    return blk2_texts(case, benv)
+
+
+def blk2_sources_ok(case, with_row):
+    """blk2 reads bval only when it is inserted with a data row: a workbook mixes both kinds of insertion, so the
+    generated block tests `bval is defined` itself (see render_blk2)"""
+    return True
+
+
+def render_blk2(case):
+    b = case["blk2"]
+    rows = [TPL_HEAD, tpl_row(type="send_message", message_text="B2.")]
+    nid = [0]
+
+    def rid():
+        nid[0] += 1
+        return f"k{nid[0]}"
+    for q in b["feats"]:
+        rr = mk_rows(q, rid)
+        if q["src"] == "bval":
+            # only meaningful when the block has its own data row: the rows sit in a block excluded otherwise
+            rows.append(tpl_row(type="begin_block", include_if="{@ bval is defined @}"))
+            rows += rr
+            rows.append(tpl_row(type="end_block"))
+        else:
+            rows += rr
+    if b["nested"]:
+        arg = "{{b1}}" if b["nested"] == "expr" else "{@ b1 @}" if b["nested"] == "native" else \
+            MK_PICK["stmt"]("b1", b["nested_C"], "A1", "B1")
+        rows.append(tpl_row(type="insert_as_block", message_text="blk3", template_arguments=arg))
+    rows.append(tpl_row(type="send_message", message_text="E2."))
+    return rows
+
+
+def render_blk3(case):
+    rows = [TPL_HEAD, tpl_row(type="send_message", message_text="B3.")]
+    nid = [0]
+
+    def rid():
+        nid[0] += 1
+        return f"j{nid[0]}"
+    for q in case["blk2"]["blk3"]:
+        rows += mk_rows(q, rid)
+    return rows
+
+
+def blk2_texts(case, benv):
+    b = case["blk2"]
+    out = ["B2."]
+    for q in b["feats"]:
+        if q["src"] == "bval" and "bval" not in benv:
+            continue
+        out += mk_texts(q, benv)
+    if b["nested"]:
+        d1 = benv["b1"] if b["nested"] in ("expr", "native") else ("A1" if benv["b1"] == b["nested_C"] else "B1")
+        out.append("B3.")
+        for q in b["blk3"]:
+            out += mk_texts(q, {"d1": d1})
+    out.append("E2.")
+    return out
 
 
 def render_blk():
@@ -474,6 +703,8 @@ def base_sheets(case):
         "bdata": table(case["bdata"], ["ID", "bval"]),
         "lookup": table(case["lookup"], ["ID", "col"]),
         "blk": render_blk(),
+        "blk2": render_blk2(case),
+        "blk3": render_blk3(case),
     }
     for name in case["templates"]:
         sheets[name] = render_template(case, name)
@@ -483,6 +714,8 @@ def base_sheets(case):
 def index_rows(case, create_rows):
     defs = [["template_definition", n, "", "", defs_cell(t["defs"]), "", ""] for n, t in case["templates"].items()]
     defs.append(["template_definition", "blk", "", "", defs_cell(case["blk_defs"]), "", ""])
+    defs.append(["template_definition", "blk2", "", "", defs_cell([("b1", "", "bd")]), "", ""])
+    defs.append(["template_definition", "blk3", "", "", defs_cell([("d1", "", "bd")]), "", ""])
     ds = [["data_sheet", n, "", "", "", "", ""] for n in ("data", "bdata", "lookup")]
     if case["index_order"] == "defs-first":
         return [INDEX_HEAD] + defs + ds + create_rows
@@ -558,6 +791,17 @@ def expected_texts(case, create, rid):
             out.append("R:" + "+".join(row["items"]) + ".")
         elif f == "router":
             out += ["RT:yes.", "RT:no."]
+        elif f in ("mk", "mkloop", "mkblock"):
+            menv = {n: env[n] for n, t, _ in defs if t != "sheet"}
+            if row is not None:
+                menv.update(val=row["val"], flag=row["flag"], key=row["key"], ID=row["ID"])
+            if f == "mk":
+                out += mk_texts(p, menv)
+            elif f == "mkblock":
+                out += mkblock_texts(case, p, menv)
+            else:
+                for it in row["items"]:
+                    out += mk_texts(p, dict(menv, it=it))
     return out
 
 
